@@ -37,7 +37,12 @@ P07(cf, op, call, xs, ret) ==
                    IF Len(res) = 1 /\ Has(res[1], "CompletionData") /\ ~Aborted(res[1]) /\ IssuedReceipt(res[1]) # <<>>
                    THEN [flags |-> {}, open |-> With(op, call.tok, IssuedReceipt(res[1])[1])]
                    ELSE [flags |-> {"P07-begin-ok-without-successful-reservation"}, open |-> op]
-              ELSE [flags |-> {}, open |-> op]
+              ELSE \* "records the receipt number the terminal issued for that reservation": a reservation the terminal completed
+                   \* and for which it reported a receipt number is an open pre-authorisation - begin cannot fail on it
+                   LET res == SelectSeq(xs, LAMBDA x : x.seq = "Reservation") IN
+                   [flags |-> IF Len(res) = 1 /\ Has(res[1], "CompletionData") /\ ~Aborted(res[1]) /\ IssuedReceipt(res[1]) # <<>>
+                              THEN {"P07-issued-receipt-not-recorded"} ELSE {},
+                    open |-> op]
     [] call.op \in {"commit", "cancel"} ->
          IF call.tok \notin DOMAIN op
          THEN [flags |-> (IF ~ret.ok /\ ret.err.class = "UnknownToken" THEN {} ELSE {"P07-unknown-token-accepted"})
